@@ -32,7 +32,12 @@ def main():
     args = ap.parse_args()
     seed = int(os.environ.get("VERIF_SEED", "1"))
     if args.cmd == "setup":
-        build.build_all(quiet=False)
+        try:
+            build.build_all(quiet=False)
+        except build.BuildError as e:
+            # the checks rebuild anyway and report a configuration that cannot be built in their own terms
+            sys.stderr.write(e.output[-2000:])
+            print("setup: %s (configuration %s); the checks will report it" % (e, getattr(e, "variant", "?")))
         return 0
     if args.cmd == "check":
         tier = args.tier if args.tier in ("quick", "thorough") else "quick"
